@@ -81,6 +81,11 @@ def data_wire(comps, content=b'', freshness=None, sig='digest', content_type=Non
     if sig == 'digest':
         body += T.enc_tlv(0x16, T.enc_tlv(0x1b, b'\x00'))
         body += T.enc_tlv(0x17, hashlib.sha256(body).digest())
+    elif sig in ('shortdigest', 'emptydigest', 'longdigest'):
+        # a value of the wrong length that agrees with the right digest as far as it goes
+        body += T.enc_tlv(0x16, T.enc_tlv(0x1b, b'\x00'))
+        d = hashlib.sha256(body).digest()
+        body += T.enc_tlv(0x17, {'shortdigest': d[:31], 'emptydigest': b'', 'longdigest': d + b'\x00'}[sig])
     elif sig == 'baddigest':
         body += T.enc_tlv(0x16, T.enc_tlv(0x1b, b'\x00'))
         body += T.enc_tlv(0x17, b'\x00' * 32)
